@@ -3,22 +3,24 @@ import Librfn.Model.SkeletonTypes
 /-! Executable interleaving model of `librfn/messageq.c` at the granularity of individual atomic operations (C04).
 
 Any number of sender threads (`senders : List SPc`, one program counter each) run
-`claim` (fetch_sub → fail: fetch_add, return NULL | load sendp → CAS, which may fail and retry → return the slot),
+`claim` (load num_free → 0: return NULL | CAS(num_free, v, v-1), which may fail — spuriously or because the counter changed —
+and then continues with the value it read back (0: return NULL) → load sendp → CAS, which may fail and retry → return the slot),
 a plain payload write, and `send` (fetch_or); one receiver runs `messageq_empty` (load, optional), `receive`
 (fetch_and + private `receivep` update), a plain payload read and `release` (fetch_add).  One `step` = one atomic
 operation (or one plain payload access) of one thread plus the thread-local code that follows it — exactly what one
 schedule token executes in `harness/h_messageq_conc.c`.  The arithmetic is that of `Model/Messageq.lean`
-(`atomic_uchar` counter read through `(signed char)`; `signedRead = false` selects the arithmetic before fix d97db7e).
+(`atomic_uchar` counter that never goes below zero, cyclic 8-bit indices, 32-bit flag word).  This is the code since fix
+6099fe4; the two earlier claim protocols live in `Model/MessageqOld.lean` for the witnesses only.
 
 Ghost state (never read by the modelled code): totals `claimed`/`received`/`released`, per-ticket `owner`, `sent`,
 `written`, the list of tickets returned by `receive`, and the events of the last step (`log`). -/
 namespace Librfn.Model.MessageqConc
-open Librfn.Model.Messageq (granted nextSend nextRecv bit slotOfOffset offsetOfSlot)
+open Librfn.Model.Messageq (nextSend nextRecv bit slotOfOffset offsetOfSlot)
 
 /-- where a sender thread is -/
 inductive SPc where
-  | idle                                  -- between calls; next: claim's fetch_sub
-  | failed                                -- claim: fetch_sub saw no free buffer; next: fetch_add, return NULL
+  | idle                                  -- between calls; next: claim's load of num_free
+  | loadedFree (v : BitVec 8)             -- claim: local `num_free = v` (not 0); next: compare-exchange(num_free, v, v-1)
   | gotPerm                               -- claim: permission obtained; next: load sendp
   | loaded (v : BitVec 8)                 -- claim: local `sendp = v`; next: compare-exchange
   | hasSlot (slot : BitVec 8) (k : Nat)   -- claim returned `slot` (ghost: ticket `k`); next: plain payload write
@@ -53,7 +55,6 @@ inductive Ev where
   deriving DecidableEq, Repr
 
 structure St where
-  signedRead : Bool := true     -- true = current code; false = before fix d97db7e
   -- the structure and the storage
   msgLen : BitVec 16
   qlen : BitVec 8
@@ -76,9 +77,8 @@ structure St where
   log : List Ev                 -- events of the last step
 
 /-- the queue after `messageq_init(mq, buf, depth*msgLen, msgLen)` with `n` idle senders -/
-def init (depth msgLen n : Nat) (signedRead : Bool := true) : St :=
-  { signedRead := signedRead
-    msgLen := BitVec.ofNat 16 msgLen, qlen := BitVec.ofNat 8 depth, numFree := BitVec.ofNat 8 depth
+def init (depth msgLen n : Nat) : St :=
+  { msgLen := BitVec.ofNat 16 msgLen, qlen := BitVec.ofNat 8 depth, numFree := BitVec.ofNat 8 depth
     sendp := 0, flags := 0, receivep := 0, payload := fun _ => 0
     senders := List.replicate n .idle, recv := .idle
     claimed := 0, received := 0, released := 0
@@ -96,14 +96,24 @@ inductive Act where
   deriving Repr
 
 def stepSender (s : St) (i : Nat) (spurious : Bool) (val : Nat) : SPc → St
-  | .idle =>          -- int num_free = (signed char) atomic_fetch_sub(&mq->num_free, 1); if (num_free <= 0) …
-    { s with numFree := s.numFree - 1
-             senders := s.senders.set i (if granted s.signedRead s.numFree then .gotPerm else .failed)
-             log := [.atomic i .fetch_sub .num_free s.numFree.toNat (s.numFree - 1).toNat] }
-  | .failed =>        -- atomic_fetch_add(&mq->num_free, 1); return NULL;
-    { s with numFree := s.numFree + 1
-             senders := s.senders.set i .idle
-             log := [.atomic i .fetch_add .num_free s.numFree.toNat (s.numFree + 1).toNat, .ret i .claim none] }
+  | .idle =>          -- unsigned char num_free = atomic_load(&mq->num_free); if (0 == num_free) return NULL;
+    if s.numFree = 0 then
+      { s with senders := s.senders.set i .idle
+               log := [.atomic i .load .num_free s.numFree.toNat s.numFree.toNat, .ret i .claim none] }
+    else
+      { s with senders := s.senders.set i (.loadedFree s.numFree)
+               log := [.atomic i .load .num_free s.numFree.toNat s.numFree.toNat] }
+  | .loadedFree v =>  -- atomic_compare_exchange_weak(&mq->num_free, &num_free, num_free - 1); on failure: if (0 == num_free) return NULL;
+    if v = s.numFree ∧ spurious = false then
+      { s with numFree := v - 1
+               senders := s.senders.set i .gotPerm
+               log := [.atomic i .cas_ok .num_free v.toNat (v - 1).toNat] }
+    else if s.numFree = 0 then
+      { s with senders := s.senders.set i .idle
+               log := [.atomic i .cas_fail .num_free v.toNat s.numFree.toNat, .ret i .claim none] }
+    else
+      { s with senders := s.senders.set i (.loadedFree s.numFree)
+               log := [.atomic i .cas_fail .num_free v.toNat s.numFree.toNat] }
   | .gotPerm =>       -- unsigned char sendp = atomic_load(&mq->sendp);
     { s with senders := s.senders.set i (.loaded s.sendp)
              log := [.atomic i .load .sendp s.sendp.toNat s.sendp.toNat] }
@@ -209,11 +219,11 @@ def skeleton : CUnit where
         pl .call "memset" [], pl .plainWrite "mq->basep" [], pl .plainWrite "mq->msg_len" [],
         pl .plainWrite "mq->queue_len" [], sc .store "mq->num_free" []]⟩,
     ⟨"messageq_claim", [
-        sc .fetchSub "mq->num_free" [],                  -- SPc.idle    → gotPerm | failed
-        sc .fetchAdd "mq->num_free" ["if#1.then"],       -- SPc.failed  → idle (return NULL)
+        sc .load "mq->num_free" [],                      -- SPc.idle       → loadedFree | idle (return NULL)
+        ⟨.casWeak, "mq->num_free", .seqCst, .seqCst, ["loop#1.cond"]⟩,   -- SPc.loadedFree → gotPerm | loadedFree | idle
         sc .load "mq->sendp" [],                         -- SPc.gotPerm → loaded
-        pl .plainRead "mq->queue_len" ["loop#1.body", "cond#1.cond"],     -- nextSend
-        ⟨.casWeak, "mq->sendp", .seqCst, .seqCst, ["loop#1.cond"]⟩,      -- SPc.loaded  → hasSlot | loaded
+        pl .plainRead "mq->queue_len" ["loop#2.body", "cond#1.cond"],     -- nextSend
+        ⟨.casWeak, "mq->sendp", .seqCst, .seqCst, ["loop#2.cond"]⟩,      -- SPc.loaded  → hasSlot | loaded
         pl .plainRead "mq->basep" [], pl .plainRead "mq->msg_len" []]⟩,  -- offsetOfSlot
     ⟨"messageq_send", [
         pl .plainRead "mq->basep" [], pl .plainRead "mq->msg_len" [],     -- slotOfOffset
